@@ -3,6 +3,8 @@ package l0wire
 import (
 	"bytes"
 	"fmt"
+	"github.com/ipld/go-ipld-prime/schema"
+	"sort"
 	"strings"
 
 	"github.com/ipfs/go-cid"
@@ -180,6 +182,9 @@ func kind(m datatransfer.Message) (string, int) {
 func encNode(n datamodel.Node) []byte {
 	if n == nil || n.IsNull() {
 		return []byte{0xf6}
+	}
+	if tn, ok := n.(schema.TypedNode); ok {
+		n = tn.Representation() // as DAG-CBOR data a schema-typed value is its representation
 	}
 	var buf bytes.Buffer
 	if err := dagcbor.Encode(n, &buf); err != nil {
@@ -408,6 +413,15 @@ func allBuilt(full bool, emit func(b built)) {
 	}
 	vals["null"] = datamodel.Null
 	vals["nil"] = nil
+	// schema-typed values (bindnode) whose representation differs from the type-level view
+	nf := doubles.NodeFamily()
+	vals["typed_tuple"] = nf["typed_tuple"]
+	vals["typed_renamed"] = nf["typed_renamed"]
+	valKeys := make([]string, 0, len(vals))
+	for k := range vals {
+		valKeys = append(valKeys, k)
+	}
+	sort.Strings(valKeys) // deterministic enumeration order
 	cs := cids()
 	sels := selectors()
 	ids := transferIDs
@@ -416,7 +430,8 @@ func allBuilt(full bool, emit func(b built)) {
 	}
 	for _, id := range ids {
 		tid := datatransfer.TransferID(id)
-		for vk, v := range vals {
+		for _, vk := range valKeys {
+			v := vals[vk]
 			for ti, typ := range typeIDs {
 				if !full && ti >= 2 && vk != "s" {
 					continue
